@@ -20,4 +20,5 @@ class NodeRetryPolicy(RetryPolicyLike):
 
     @property
     def exceptions(self) -> Tuple[Type[Exception], ...]:
-        return self.node.exceptions or (Exception,)
+        # An empty setting is a setting: no exception is to be retried
+        return self.node.exceptions if self.node.exceptions is not None else (Exception,)
